@@ -1,8 +1,210 @@
+//! probe-env (C07): echoes what a program started through tiny-std's `_start` observes.
+//!
+//! stdin : lookup keys as records `u32le len | bytes` until EOF.
+//! stdout: records `u8 tag | u32le len | payload`, in this order
+//!   'C' u64   args_os().len()
+//!   'a' bytes one per element yielded by args_os() (contents without the terminator)
+//!   'n' u64   number of elements args_os() yielded
+//!   's' [1]+bytes | [0]   one per element yielded by args(): Ok(str) / Err
+//!   'm' u64   number of elements args() yielded
+//!   per key:  'K' key bytes, 'u' var_unix result, 'v' var result
+//!             result = [0] Missing | [1]+value bytes | [2] NotUnicode | [3] not asked (key is not UTF-8)
+//!   'U' u64 get_uid, 'G' u64 get_gid, 'R' [0] | [1]+16 bytes (get_random, native endian), 'E' [0] | [1]+bytes (get_exec_fn)
+//!   'X' raw bytes of /proc/self/auxv as read by the probe
+//!   'r' 16 bytes the probe finds at the AT_RANDOM address of that auxv (empty when absent)
+//!   'e' string the probe finds at the AT_EXECFN address of that auxv (empty record + flag: [0] | [1]+bytes)
+//!   'T' 6 x i64: clock_gettime(CLOCK_MONOTONIC) syscall, MonotonicInstant::now(), syscall again (sec, nsec each)
+//!   'Z' end marker
+//! Values go to the wire through `rusl::unistd::write` loops directly from the memory the API returned.
 #![no_std]
 #![no_main]
+extern crate alloc;
+
+use alloc::vec::Vec;
+use rusl::platform::{ClockId, OpenFlags, STDIN, STDOUT};
+use rusl::string::unix_str::UnixStr;
+use tiny_std::env::VarError;
+
+const AT_RANDOM: u64 = 25;
+const AT_EXECFN: u64 = 31;
+
+fn die(code: i32) -> ! {
+    rusl::process::exit(code)
+}
+
+fn write_all(mut b: &[u8]) {
+    while !b.is_empty() {
+        match rusl::unistd::write(STDOUT, b) {
+            Ok(0) => die(90),
+            Ok(n) => b = &b[n..],
+            Err(e) => {
+                if e.code == Some(rusl::error::Errno::EINTR) {
+                    continue;
+                }
+                die(91)
+            }
+        }
+    }
+}
+
+fn rec2(tag: u8, a: &[u8], b: &[u8]) {
+    let len = (a.len() + b.len()) as u32;
+    let l = len.to_le_bytes();
+    let hdr = [tag, l[0], l[1], l[2], l[3]];
+    write_all(&hdr);
+    write_all(a);
+    write_all(b);
+}
+
+fn rec(tag: u8, a: &[u8]) {
+    rec2(tag, a, &[]);
+}
+
+fn read_fd_to_end(fd: rusl::platform::Fd, out: &mut Vec<u8>) {
+    let mut buf = [0u8; 4096];
+    loop {
+        match rusl::unistd::read(fd, &mut buf) {
+            Ok(0) => return,
+            Ok(n) => out.extend_from_slice(&buf[..n]),
+            Err(e) => {
+                if e.code == Some(rusl::error::Errno::EINTR) {
+                    continue;
+                }
+                die(92)
+            }
+        }
+    }
+}
+
+fn contents(u: &UnixStr) -> &[u8] {
+    let s = u.as_slice();
+    &s[..s.len() - 1]
+}
 
 #[no_mangle]
 pub fn main() -> i32 {
-    tiny_std::println!("probe-env skeleton");
+    // ---- arguments
+    let it = tiny_std::env::args_os();
+    rec(b'C', &(it.len() as u64).to_le_bytes());
+    let mut n = 0u64;
+    for a in it {
+        rec(b'a', contents(a));
+        n += 1;
+    }
+    rec(b'n', &n.to_le_bytes());
+    let mut m = 0u64;
+    for a in tiny_std::env::args() {
+        match a {
+            Ok(s) => rec2(b's', &[1], s.as_bytes()),
+            Err(_) => rec(b's', &[0]),
+        }
+        m += 1;
+    }
+    rec(b'm', &m.to_le_bytes());
+
+    // ---- environment lookups
+    let mut input = Vec::new();
+    read_fd_to_end(STDIN, &mut input);
+    let mut pos = 0usize;
+    while pos + 4 <= input.len() {
+        let len = u32::from_le_bytes([input[pos], input[pos + 1], input[pos + 2], input[pos + 3]]) as usize;
+        pos += 4;
+        if pos + len > input.len() {
+            die(93);
+        }
+        let key = &input[pos..pos + len];
+        pos += len;
+        rec(b'K', key);
+        let mut z = Vec::with_capacity(len + 1);
+        z.extend_from_slice(key);
+        z.push(0);
+        let Ok(ukey) = UnixStr::try_from_bytes(&z) else { die(94) };
+        match tiny_std::env::var_unix(ukey) {
+            Ok(v) => rec2(b'u', &[1], contents(v)),
+            Err(VarError::Missing) => rec(b'u', &[0]),
+            Err(VarError::NotUnicode(_)) => rec(b'u', &[2]),
+        }
+        match core::str::from_utf8(key) {
+            Ok(skey) => match tiny_std::env::var(skey) {
+                Ok(v) => rec2(b'v', &[1], v.as_bytes()),
+                Err(VarError::Missing) => rec(b'v', &[0]),
+                Err(VarError::NotUnicode(_)) => rec(b'v', &[2]),
+            },
+            Err(_) => rec(b'v', &[3]),
+        }
+    }
+
+    // ---- aux getters
+    rec(b'U', &(tiny_std::elf::aux::get_uid() as u64).to_le_bytes());
+    rec(b'G', &(tiny_std::elf::aux::get_gid() as u64).to_le_bytes());
+    match tiny_std::elf::aux::get_random() {
+        Some(r) => rec2(b'R', &[1], &r.to_ne_bytes()),
+        None => rec(b'R', &[0]),
+    }
+    match tiny_std::elf::aux::get_exec_fn() {
+        Some(e) => rec2(b'E', &[1], contents(e)),
+        None => rec(b'E', &[0]),
+    }
+
+    // ---- the kernel's own record of the aux vector
+    let mut auxv = Vec::new();
+    match rusl::unistd::open(UnixStr::from_str_checked("/proc/self/auxv\0"), OpenFlags::O_RDONLY) {
+        Ok(fd) => {
+            read_fd_to_end(fd, &mut auxv);
+            let _ = rusl::unistd::close(fd);
+        }
+        Err(_) => die(95),
+    }
+    rec(b'X', &auxv);
+    let mut random_addr = 0u64;
+    let mut execfn_addr = 0u64;
+    let mut i = 0;
+    while i + 16 <= auxv.len() {
+        let mut k = [0u8; 8];
+        let mut v = [0u8; 8];
+        k.copy_from_slice(&auxv[i..i + 8]);
+        v.copy_from_slice(&auxv[i + 8..i + 16]);
+        let (k, v) = (u64::from_ne_bytes(k), u64::from_ne_bytes(v));
+        if k == 0 {
+            break;
+        }
+        if k == AT_RANDOM {
+            random_addr = v;
+        } else if k == AT_EXECFN {
+            execfn_addr = v;
+        }
+        i += 16;
+    }
+    if random_addr != 0 {
+        let s = unsafe { core::slice::from_raw_parts(random_addr as *const u8, 16) };
+        rec(b'r', s);
+    } else {
+        rec(b'r', &[]);
+    }
+    if execfn_addr != 0 {
+        let p = execfn_addr as *const u8;
+        let mut l = 0usize;
+        unsafe {
+            while core::ptr::read_volatile(p.add(l)) != 0 {
+                l += 1;
+            }
+            rec2(b'e', &[1], core::slice::from_raw_parts(p, l));
+        }
+    } else {
+        rec(b'e', &[0]);
+    }
+
+    // ---- clock: the (possibly vDSO) path bracketed by two real system calls
+    let Ok(t0) = rusl::time::clock_get_time(ClockId::CLOCK_MONOTONIC) else { die(96) };
+    let now = tiny_std::time::MonotonicInstant::now();
+    let Ok(t1) = rusl::time::clock_get_time(ClockId::CLOCK_MONOTONIC) else { die(96) };
+    let inst = now.as_instant();
+    let tn: &rusl::platform::TimeSpec = inst.as_ref();
+    let mut t = [0u8; 48];
+    for (j, v) in [t0.seconds(), t0.nanoseconds(), tn.seconds(), tn.nanoseconds(), t1.seconds(), t1.nanoseconds()].iter().enumerate() {
+        t[j * 8..j * 8 + 8].copy_from_slice(&v.to_le_bytes());
+    }
+    rec(b'T', &t);
+    rec(b'Z', &[]);
     0
 }
